@@ -95,11 +95,12 @@ def parseSite (site : String) : Option Site :=
           | 4, "nsync_note_notified_deadline_" => .dlLd1
           | 5, "nsync_note_notified_deadline_" => .dlLd2
           | 6, "nsync_note_new" => .newLd
-          | 7, "note_enqueue" => .enqLd
-          | 8, "note_enqueue" => .enqSt1
-          | 9, "note_enqueue" => .enqSt0
-          | 10, "note_dequeue" => .deqLd
-          | 11, "note_dequeue" => .deqSt
+          | 7, "nsync_note_new" => .newSt
+          | 8, "note_enqueue" => .enqLd
+          | 9, "note_enqueue" => .enqSt1
+          | 10, "note_enqueue" => .enqSt0
+          | 11, "note_dequeue" => .deqLd
+          | 12, "note_dequeue" => .deqSt
           | _, _ => .other)
       else if file = "wait.c" ∧ k = 0 ∧ fn = "nsync_wait_n" then some .waitInit
       else some .other
